@@ -1349,7 +1349,11 @@ func (fr *Frame) checkEnsures(ret *ssa.Return, rs []Term) {
 		fr.applyGhostSet(gs, ret, nil, rs, sig, fr.entry)
 	}
 	fr.checkFrame(ret)
+	retOrd := fr.returnOrdinal(ret)
 	for _, en := range fr.fc.Ensures {
+		if en.AtReturn >= 0 && en.AtReturn != retOrd {
+			continue
+		}
 		e := fr.env(ret.Block())
 		fr.bindResults(e, sig, rs, nil)
 		t, err := e.Bool(en.E)
@@ -1701,4 +1705,26 @@ func (c *Ctx) isLocalGhostComp(n string) bool {
 		}
 	}
 	return false
+}
+
+// returnOrdinal: index of a return instruction among the function's returns in source order.
+func (fr *Frame) returnOrdinal(ret *ssa.Return) int {
+	var rets []*ssa.Return
+	for _, b := range fr.fn.Blocks {
+		if b == fr.fn.Recover {
+			continue
+		}
+		for _, in := range b.Instrs {
+			if r, ok := in.(*ssa.Return); ok {
+				rets = append(rets, r)
+			}
+		}
+	}
+	sort.SliceStable(rets, func(i, j int) bool { return rets[i].Pos() < rets[j].Pos() })
+	for i, r := range rets {
+		if r == ret {
+			return i
+		}
+	}
+	return -1
 }
